@@ -204,9 +204,64 @@ func c14Run(run *ev.Run) {
 		}
 		run.Extra[fmt.Sprintf("levels_spec%d", i)] = st.LevelSizes
 	}
-	run.States, run.Transitions, run.Traces, run.Evals = total.States, total.Transitions, total.Histories, total.Transitions
+	srv := c14ServerLevel(run)
+	run.Extra["server_level_requests"] = srv
+	run.States, run.Transitions, run.Traces, run.Evals = total.States, total.Transitions+srv, total.Histories+srv, total.Transitions+srv
 	run.Extra["replayed_events"] = total.Replayed
 	run.Extra["depth"] = depth
+}
+
+// c14ServerLevel: the assembled service with mock filters around the OIDC filter in the chain (what a later filter
+// of the chain decides must not move what the OIDC filter prepared for upstream into an answer for the browser).
+func c14ServerLevel(run *ev.Run) int64 {
+	var n int64
+	for _, shape := range []struct{ before, after []bool }{{nil, []bool{false}}, {nil, []bool{true, false}}, {[]bool{true}, []bool{false}}, {[]bool{true}, []bool{true}}} {
+		for _, fwd := range []bool{true, false} {
+			f := world.FilterSpec{Name: "a", Realm: "idp-a.test", ClientID: "client-a", Secret: "SEKRET-of-filter-a", CookiePrefix: "pa", Forward: fwd, Logout: true,
+				MocksBefore: shape.before, MocksAfter: shape.after}
+			sw, err := world.NewSWorld([]world.FilterSpec{f}, nil)
+			if err != nil {
+				run.HarnessError("C14 server-level world: " + err.Error())
+				return n
+			}
+			sid, name, err := sw.Login(f)
+			if err != nil {
+				run.HarnessError("C14 server-level login: " + err.Error())
+				sw.Close()
+				return n
+			}
+			idp := sw.Realms[f.Realm]
+			for _, req := range []world.SReq{
+				{Tenant: "a", Path: "/a/app", Cookies: map[string]string{name: sid}},
+				{Tenant: "a", Path: "/a/app?x=1", Cookies: map[string]string{name: sid}},
+				{Tenant: "a", Path: "/a/callback?code=x&state=y", Cookies: map[string]string{name: sid}},
+				{Tenant: "a", Path: sw.LogoutPath(f), Cookies: map[string]string{name: sid}},
+			} {
+				r := sw.Do(req)
+				n++
+				run.Class(fmt.Sprintf("server|before=%v|after=%v|fwd=%v|ok=%v|http=%d", shape.before, shape.after, fwd, r.OK, r.HTTPStatus))
+				if r.OK {
+					continue
+				}
+				ser := c14Serialise(r)
+				secrets := []c14Secret{{"client-secret", f.Secret}}
+				for t, is := range idp.Issued {
+					secrets = append(secrets, c14Secret{is.Kind + "-token", t})
+				}
+				for _, s := range secrets {
+					for encName, needle := range encodingsOf(s.Value) {
+						if strings.Contains(ser, needle) {
+							run.Violation(fmt.Sprintf("C14 leak secret=%s encoding=%s where=%s chain=mocks-around-oidc", s.Kind, strings.Split(encName, "@")[0], c14Where(r, needle)),
+								fmt.Sprintf("chain [mocks %v, oidc, mocks %v]: the denied answer (code %v, http %d) to %s contains the %s", shape.before, shape.after, r.Code, r.HTTPStatus, req.Path, s.Kind),
+								map[string]any{"level": "server", "filter": f, "request": req})
+						}
+					}
+				}
+			}
+			sw.Close()
+		}
+	}
+	return n
 }
 
 func c14ReplayFn(path string) int {
